@@ -71,6 +71,9 @@ type Flow struct {
 	Extra       []Fund `json:"extra,omitempty"`        // bid2d: the seller's AcceptBid2DArgs.ExtraUTXOs (P2PKH of the seller key; Key unused)
 	UTXOSeq     uint32 `json:"utxo_seq,omitempty"`     // UTXO.SequenceNumber of every UTXO object handed in
 	OrdUnlocker bool   `json:"ord_unlocker,omitempty"` // the ordinal UTXO object carries the seller's Unlocker as well
+	// what happens to the partially signed transaction between maker and taker (transit_test.go)
+	Transit       []Alter `json:"transit,omitempty"`
+	ValidateFirst bool    `json:"validate_first,omitempty"` // the taker calls Validate on the received object before the acceptance
 	// informational (how the generator placed the funding relative to its
 	// independently computed fee threshold); the oracle never reads them
 	Target string `json:"target,omitempty"`
@@ -209,6 +212,7 @@ type world struct {
 	buyers    []*bec.PrivateKey
 	ordScript []byte
 	spent     map[string]spent
+	applied   []string // alterations in transit that applied (evidence)
 }
 
 func build(c Flow) (*world, string) {
@@ -300,9 +304,15 @@ func (w *world) run() (tx *bt.Tx, stage string, err error) {
 		if err != nil {
 			return nil, "list", err
 		}
+		if pstx, w.applied, err = w.transit(pstx); err != nil {
+			return nil, "transit", err
+		}
 		args := &ord.AcceptListingArgs{PSTx: pstx, UTXOs: w.fundUTXOs(), BuyerReceiveOrdinalScript: script(c.Receive),
 			DummyOutputScript: script(c.Dummy), ChangeScript: script(c.Change), FQ: quote(c.Std, c.Data)}
 		vla := &ord.ValidateListingArgs{ListedOrdinalUTXO: w.ordUTXO()}
+		if c.ValidateFirst && !vla.Validate(pstx) {
+			return nil, "validate", bt.ErrInvalidSellOffer
+		}
 		if c.Variant == "list" {
 			tx, err = ord.AcceptOrdinalSaleListing(bg, vla, args)
 		} else {
@@ -316,7 +326,14 @@ func (w *world) run() (tx *bt.Tx, stage string, err error) {
 		if err != nil {
 			return nil, "bid", err
 		}
-		tx, err = ord.AcceptBidToBuy1SatOrdinal(bg, &ord.ValidateBidArgs{OrdinalUTXO: w.ordUTXO(), BidAmount: c.Price, ExpectedFQ: quote(c.Std, c.Data)},
+		if pstx, w.applied, err = w.transit(pstx); err != nil {
+			return nil, "transit", err
+		}
+		vba := &ord.ValidateBidArgs{OrdinalUTXO: w.ordUTXO(), BidAmount: c.Price, ExpectedFQ: quote(c.Std, c.Data)}
+		if c.ValidateFirst && !vba.Validate(pstx) {
+			return nil, "validate", bt.ErrInvalidSellOffer
+		}
+		tx, err = ord.AcceptBidToBuy1SatOrdinal(bg, vba,
 			&ord.AcceptBidArgs{PSTx: pstx, SellerReceiveScript: script(c.SellerScript), OrdinalUnlocker: su})
 		return tx, "accept", err
 	case "bid2d":
@@ -331,7 +348,14 @@ func (w *world) run() (tx *bt.Tx, stage string, err error) {
 		prev := append([]*bt.UTXO{}, fu[:2]...)
 		prev = append(prev, w.ordUTXO())
 		prev = append(prev, fu[2:]...)
-		tx, err = ord.AcceptBidToBuy1SatOrdinal2Dummies(bg, &ord.ValidateBid2DArgs{PreviousUTXOs: prev, BidAmount: c.Price, ExpectedFQ: quote(c.Std, c.Data)},
+		if pstx, w.applied, err = w.transit(pstx); err != nil {
+			return nil, "transit", err
+		}
+		vba := &ord.ValidateBid2DArgs{PreviousUTXOs: prev, BidAmount: c.Price, ExpectedFQ: quote(c.Std, c.Data)}
+		if c.ValidateFirst && !vba.Validate(pstx) {
+			return nil, "validate", bt.ErrInvalidSellOffer
+		}
+		tx, err = ord.AcceptBidToBuy1SatOrdinal2Dummies(bg, vba,
 			&ord.AcceptBid2DArgs{PSTx: pstx, SellerReceiveOrdinalScript: script(c.SellerScript), OrdinalUnlocker: su, ExtraUTXOs: w.extraUTXOs()})
 		return tx, "accept", err
 	}
@@ -518,9 +542,20 @@ func checkFlow(ctx *pbt.Ctx, c Flow, fee bool) error {
 			err = errors.New("nil transaction")
 		}
 		ctx.Label(c.Variant + ":" + stage + ":" + errClass(err))
+		for _, a := range w.applied {
+			ctx.Label("transit:" + a + ":refused")
+		}
 		return nil
 	}
 	ctx.Label(c.Variant + ":completed")
+	for _, a := range w.applied {
+		ctx.Label("transit:" + a + ":completed")
+	}
+	if c.ValidateFirst {
+		ctx.Label("path:validate-then-accept")
+	} else {
+		ctx.Label("path:accept-only")
+	}
 	ctx.Label("target:" + c.Target)
 	ctx.Labelf("nfund:%d", len(c.Funding))
 	if c.OrdContent != nil {
@@ -836,6 +871,7 @@ func genFlowWith(t *rapid.T, variant string, base *Flow, sh Share) Flow {
 		c.UTXOSeq = rapid.SampledFrom([]uint32{1, 0xfffffffe, 0xffffffff, 0x80000000, 12345}).Draw(t, "utxo_seq_v")
 	}
 	c.OrdUnlocker = rapid.IntRange(0, 3).Draw(t, "ord_unlocker") == 0
+	genTransit(t, &c)
 	return c
 }
 
